@@ -16,7 +16,9 @@ vars == <<cs, done>>
 
 \* the executor builds: header, question, A record (15), filler records
 \* (11 + n each), OPT: an exact length needs filler = 0 or >= 11
-Feasible(q, l, o) == LET f == l - (12 + q + 15 + o) IN f = 0 \/ f >= 11
+\* and an OPT record is 11 octets or carries one padding option (4 + n)
+Feasible(q, l, o) == LET f == l - (12 + q + 15 + o)
+                     IN (f = 0 \/ f >= 11) /\ (o \in {0, 11} \/ o >= 15)
 
 Cases == {c \in [udp : BOOLEAN, csize : CSizes, hint : Hints, len : Lens,
                  optlen : OptLens, qlen : QLens] :
